@@ -230,7 +230,10 @@ def initConfig (s : State) (mbcv : Nat) (peers : List (Nat × String × Addr)) :
                        cfg := some { blockMsgDelay := 10000, hashMsgDelay := 10000, peerHandshakeTimeout := 10, maxBlockChangeView := mbcv } },
         ret := "1", events := [] }
 
-/-- `RegisterCandidate` (pool membership by decoded key). -/
+/-- `RegisterCandidate`. `State.keys` holds the canonical serializations of the valid keys, so a string that is valid
+here is canonical (the Go code rejects the other encodings of a key explicitly); pool membership is decided on the
+public keys (all pool keys are canonical: they entered through this method or, by assumption, through the genesis
+configuration). -/
 def registerCandidate (s : State) (signers : List Addr) (pk : String) (addr : Addr) : M Out :=
   if !witness signers addr then .error .err else
   if (addrOfPk s pk).isNone then .error .err else
@@ -242,7 +245,7 @@ def registerCandidate (s : State) (signers : List Addr) (pk : String) (addr : Ad
     match curPool s with
     | none => .error .err
     | some (_, pool) =>
-      if pool.any (fun it => decodePk it.pk == none || decodePk it.pk == some kb) then .error .err else
+      if pool.any (fun it => (addrOfPk s it.pk).isNone || decodePk it.pk == some kb) then .error .err else
       .ok { st := { s with apply := alPut s.apply kb (pk, addr) }, ret := "1", events := ["registerCandidate"] }
 
 /-- `UnRegisterCandidate`. -/
